@@ -3,6 +3,8 @@
 package zapcore
 
 import (
+	"fmt"
+	"sync"
 	"time"
 
 	vrt "go.uber.org/zap/internal/vrt"
@@ -148,4 +150,139 @@ func VC11Bucket() {
 	same := cs.get(l1, k1) == cs.get(l2, k2)
 	sameBucket := k1 == k2 || (k1 != "other" && k2 != "other")
 	vrt.Assert("bucket-identity", same == (l1 == l2 && sameBucket))
+}
+
+// Histories: k entries on a fresh sampler against a window-based reference kept per bucket.
+func vC11History(k int) {
+	inner := vNewRecCore("inner", DebugLevel)
+	type dec struct {
+		msg string
+		d   SamplingDecision
+	}
+	var hooks []dec
+	first, thereafter := vrt.Choice("first", 3), []int{0, 2}[vrt.Choice("thereafter", 2)]
+	const tick = 10 * time.Second
+	root := NewSamplerWithOptions(inner, tick, first, thereafter, SamplerHook(func(e Entry, d SamplingDecision) {
+		hooks = append(hooks, dec{e.Message, d})
+	}))
+	derived := root.With([]Field{{Key: "child", Type: Int64Type, Integer: 1}})
+	// reference state per (level, bucket): window end and ordinal
+	type win struct {
+		end int64
+		n   uint64
+	}
+	ref := map[[2]int]*win{}
+	msgs := []string{"msg", vCollide, "other"}
+	bucketOf := []int{0, 0, 1} // msg and its colliding twin share a budget
+	for i := 0; i < k; i++ {
+		id := fmt.Sprintf("e%d", i)
+		// (message, level, through the derived core): five representative kinds of entry
+		kind := vrt.Choice(id+".kind", 5)
+		mi := []int{0, 1, 2, 0, 0}[kind]
+		lvl := []Level{InfoLevel, InfoLevel, InfoLevel, WarnLevel, InfoLevel}[kind]
+		sec := vrt.Int64(id + ".sec")
+		vrt.Assume(sec >= 0 && sec < 1000)
+		tn := sec * 1000000000
+		ent := Entry{Level: lvl, Message: msgs[mi], Time: time.Unix(sec, 0)}
+		core := root
+		if kind == 1 || kind == 4 {
+			core = derived // derived cores share the parent's budget
+		}
+		adds, nh := inner.shared.adds, len(hooks)
+		ce := core.Check(ent, nil)
+		w := ref[[2]int{int(lvl), bucketOf[mi]}]
+		if w == nil {
+			w = &win{}
+			ref[[2]int{int(lvl), bucketOf[mi]}] = w
+		}
+		if tn >= w.end { // at or after the window's end: a new window opens
+			w.end, w.n = tn+int64(tick), 1
+		} else {
+			w.n++
+		}
+		f, m := uint64(first), uint64(thereafter)
+		sampled := w.n <= f || (m != 0 && (w.n-f)%m == 0)
+		vrt.Assert("forwarded-iff-within-first-or-every-mth-of-its-window", (inner.shared.adds == adds+1) == sampled && (ce != nil) == sampled)
+		vrt.Assert("one-hook-call-with-the-decision-applied", len(hooks) == nh+1 && hooks[nh].msg == msgs[mi] && (hooks[nh].d == LogSampled) == sampled)
+	}
+	vrt.Observe("forwarded", inner.shared.adds)
+	vrt.Cover("done")
+}
+
+//verif: prop=C11 bounds="histories of 3 entries on a fresh sampler (tick 10 s): each entry one of {msg, its hash-colliding twin via a With-derived sampler, another message, msg at Warn, msg via the derived sampler}; first in 0..2, thereafter in {0,2}; timestamp = symbolic whole seconds in [0,1000) in any order (equal and decreasing timestamps included); reference: per level and bucket, a window opened by the first entry at or after the previous end"
+func VC11History3() { vC11History(3) }
+
+//verif: prop=C11 tier=thorough bounds="histories of 4 entries (as VC11History3)"
+func VC11History4() { vC11History(4) }
+
+// vSafeCore is a goroutine-safe recording leaf.
+type vSafeCore struct {
+	mu     sync.Mutex
+	checks int
+}
+
+func (c *vSafeCore) Enabled(Level) bool { return true }
+func (c *vSafeCore) With([]Field) Core  { return c }
+func (c *vSafeCore) Check(e Entry, ce *CheckedEntry) *CheckedEntry {
+	c.mu.Lock()
+	c.checks++
+	c.mu.Unlock()
+	return ce.AddCore(e, c)
+}
+func (c *vSafeCore) Write(Entry, []Field) error { return nil }
+func (c *vSafeCore) Sync() error               { return nil }
+
+//verif: prop=C11 bounds="2 goroutines, one Check each on the same key (the second through a With-derived sampler), first/thereafter in 0..2: (a) inside an already open window the admitted count is exactly the sequential formula for ordinals 2 and 3; (b) with both entries at the window's end (rollover) each entry still gets exactly one decision, one hook call and is forwarded iff sampled; every interleaving of the atomic operations (preemption bound 2); race monitor on"
+func VC11Concurrent() {
+	inner := &vSafeCore{}
+	var hmu sync.Mutex
+	sampledHooks, droppedHooks := 0, 0
+	first, thereafter := vrt.Choice("first", 3), vrt.Choice("thereafter", 3)
+	const tick = 10 * time.Second
+	root := NewSamplerWithOptions(inner, tick, first, thereafter, SamplerHook(func(e Entry, d SamplingDecision) {
+		hmu.Lock()
+		if d == LogSampled {
+			sampledHooks++
+		} else {
+			droppedHooks++
+		}
+		hmu.Unlock()
+	}))
+	derived := root.With(nil)
+	rollover := vrt.Choice("rollover", 2) == 1
+	t0 := time.Unix(100, 0)
+	root.Check(Entry{Level: InfoLevel, Message: "m", Time: t0}, nil) // opens the window [100 s, 110 s)
+	t := time.Unix(101, 0)
+	if rollover {
+		t = time.Unix(110, 0) // both at the window's end
+	}
+	before := inner.checks
+	hb := sampledHooks + droppedHooks
+	var wg sync.WaitGroup
+	wg.Add(2)
+	var fa, fb bool
+	go func() { defer wg.Done(); fa = root.Check(Entry{Level: InfoLevel, Message: "m", Time: t}, nil) != nil }()
+	go func() { defer wg.Done(); fb = derived.Check(Entry{Level: InfoLevel, Message: "m", Time: t}, nil) != nil }()
+	wg.Wait()
+	forwarded := inner.checks - before
+	nf := 0
+	if fa {
+		nf++
+	}
+	if fb {
+		nf++
+	}
+	vrt.Assert("one-decision-and-hook-per-entry", sampledHooks+droppedHooks == hb+2)
+	vrt.Assert("forwarded-iff-sampled", forwarded == nf)
+	if !rollover {
+		f, m := uint64(first), uint64(thereafter)
+		want := 0
+		for _, n := range []uint64{2, 3} {
+			if n <= f || (m != 0 && (n-f)%m == 0) {
+				want++
+			}
+		}
+		vrt.Assert("admitted-count-exact-inside-an-open-window", forwarded == want)
+	}
+	vrt.Cover("done")
 }
